@@ -5,10 +5,12 @@ Written against the abstract bus in explicit pair-passing style (no monads): eve
 the CPU and the bus and returns both. The order of bus operations is the order in which the Rust
 code issues them (cpu.rs, opcode/*.rs), the results are those of an NMOS Z80.
 
-`Variant.hw` is the reference (what the hardware does); `Variant.code` differs only in the MEMPTR
-value left by `LD (nn),A` and `OUT (n),A`, where rustzx forgets to mask the low byte
-(DESIGN §9 #1) — the faithful transcription of the code, used by the theorems that speak about the
-code as it is.
+`Variant.hw` is the reference (what the hardware does) and, since the repair in /repo
+(`fix: MEMPTR after LD (nn),A and OUT (n),A …`, commit eaf876f), also what rustzx does.
+`Variant.code` is rustzx *before that repair*: it differs only in the MEMPTR value left by
+`LD (nn),A` and `OUT (n),A`, where the low byte was not masked (DESIGN §9 #1). It is kept so that the
+defect stays stated formally (`code_memptr_violates`) and so that the harness can name the old
+behaviour if it ever returns.
 
 Modelled as the code behaves, ground truth not established (DESIGN §5): a halted CPU re-fetches
 the HALT opcode at an unchanged PC; IM 0 acts like IM 1; the repeat cycle of LDIR/LDDR/CPIR/CPDR
